@@ -31,8 +31,8 @@ import (
 
 func init() {
 	core.Register(&core.Check{
-		ID: "C29",
-		Rule: "cases: for every schema family linked in open, hybrid and opaque form (test3, testeditions, required, enums, lazy, textpbeditions, messageset under protolegacy): one logical content (PRNG, keyed by field number: boundary scalars, NaN, -0, strings, bytes, enums, nested messages, lists, maps, oneof members, extensions, unknown fields) materialised through (1) protoreflect Set on each flavour and on dynamicpb, (2) the generated Go API via reflect: exported struct fields by protobuf tag incl. oneof wrapper types (open, hybrid), SetX methods (hybrid, opaque), _builder structs + Build() (hybrid, opaque; statically referenced builder types); oracle: identical deterministic bytes across all flavours and routes, every flavour decodes every other's bytes to the same field-number-keyed snapshot, generated getters/HasX agree with reflection, JSON and text outputs equal after masking type names; and the concatenation of two consecutive contents' serialisations (one decode of the concatenation; decode of the first then Merge-decode of the second) leaves every flavour with the snapshot and deterministic bytes dynamicpb ends with, without panic (lazy fields stay undecoded between the two occurrences); repeated in the protoopaque build; distinct = distinct (family, content bytes); non-trivial = at least one populated field",
+		ID:     "C29",
+		Rule:   "cases: for every schema family linked in open, hybrid and opaque form (test3, testeditions, required, enums, lazy, textpbeditions, messageset under protolegacy): one logical content (PRNG, keyed by field number: boundary scalars, NaN, -0, strings, bytes, enums, nested messages, lists, maps, oneof members, extensions, unknown fields) materialised through (1) protoreflect Set on each flavour and on dynamicpb, (2) the generated Go API via reflect: exported struct fields by protobuf tag incl. oneof wrapper types (open, hybrid), SetX methods (hybrid, opaque), _builder structs + Build() (hybrid, opaque; statically referenced builder types); oracle: identical deterministic bytes across all flavours and routes, every flavour decodes every other's bytes to the same field-number-keyed snapshot, generated getters/HasX agree with reflection, JSON and text outputs equal after masking type names; and the concatenation of two consecutive contents' serialisations (one decode of the concatenation; decode of the first then Merge-decode of the second) leaves every flavour with the snapshot and deterministic bytes dynamicpb ends with, without panic (lazy fields stay undecoded between the two occurrences); repeated in the protoopaque build; distinct = distinct (family, content bytes); non-trivial = at least one populated field",
 		Assume: []string{"field-number-keyed snapshot (model/snapshot.go)", "reflect-based driver of the generated API in checks/c29.go (falls back to protoreflect Set, counted, when a Go name or type cannot be matched)"},
 		Batches: func(tier string) []core.Batch {
 			bs := stdBatches([]string{"base"}, 8)
